@@ -27,49 +27,87 @@ Fixpoint hx (s : String.string) : list N :=
   | _ => []
   end.
 
-(* coalStreamByte *)
-Definition pl_byte (s j : N) : N := (s * 167 + j * (2 * (s mod 5) + 1) + (j / 256) * 31) mod 256.
-Fixpoint pl_from (s j : N) (n : nat) : list N :=
-  match n with O => [] | S n' => pl_byte s j :: pl_from s (j + 1) n' end.
-Definition pl (s n : N) : list N := pl_from s 0 (N.to_nat n).
+(* coalStreamByte: byte j of stream s is (s * 167 + j * (2 * (s mod 5) + 1) + (j / 256) * 31) mod 256, produced
+   incrementally (no division per byte): x is the current byte, c = j mod 256 *)
+Definition wrap8 (x : N) : N := if x <? 256 then x else x - 256.
+Fixpoint pl_from (b x c : N) (n : nat) : list N :=
+  match n with
+  | O => []
+  | S n' =>
+      let x1 := wrap8 (x + b) in
+      if c =? 255 then x :: pl_from b (wrap8 (x1 + 31)) 0 n'
+      else x :: pl_from b x1 (c + 1) n'
+  end.
+Definition pl (s n : N) : list N := pl_from (2 * (s mod 5) + 1) ((s * 167) mod 256) 0 (N.to_nat n).
+
+(* packet literals: F p is p; U t id seq flags ipck l4ck pay is template t (the t-th entry of the case's template
+   list: a packet of the same flow printed in full, with these six fields blanked) with the six fields filled in *)
+Inductive plit :=
+| F (p : pkt)
+| U (t id seq flags ipck l4ck : N) (pay : list N).
+
+Definition resolve_p (tpls : list pkt) (l : plit) : option pkt :=
+  match l with
+  | F p => Some p
+  | U t id seq flags ipck l4ck pay =>
+      match nth_error tpls (N.to_nat t) with
+      | Some p => Some (with_body (with_cks (with_flags (with_seq (with_id p id) seq) flags) ipck l4ck) pay [])
+      | None => None
+      end
+  end.
 
 (* writes / delivered packets; WI i / SI i: byte-identical to the i-th staged packet (the harness compared bytes) *)
-Inductive wlit := WI (i : N) | WP (p : pkt) | WG (g : gso).
-Inductive slit := SI (i : N) | SP (p : pkt).
+Inductive wlit := WI (i : N) | WP (p : plit) | WG (proto : N) (hdr : plit) (iplen udplen : N) (pays : list (list N)).
+Inductive slit := SI (i : N) | SP (p : plit).
 
 Inductive case :=
-| CBatch (tso uso : bool)         (* the GSO capabilities the writer advertises *)
-         (ins : list staged)      (* Commit order *)
-         (ws : list wlit)         (* Write / WriteGSO calls in call order *)
-         (segs : list slit)       (* the calls re-segmented by the harness' kernel reference, in order *)
-         (harness_ok : bool).     (* no panic; every recorded header parsed; every checksum completed from the
-                                     coalescer's seed verified from scratch *)
+| CBatch (tso uso : bool)            (* the GSO capabilities the writer advertises *)
+         (tpls : list pkt)           (* templates for the U literals below *)
+         (ins : list (key * plit))   (* Commit order *)
+         (ws : list wlit)            (* Write / WriteGSO calls in call order *)
+         (segs : list slit)          (* the calls re-segmented by the harness' kernel reference, in order *)
+         (harness_ok : bool).        (* no panic; every recorded header parsed; every checksum completed from the
+                                        coalescer's seed verified from scratch *)
 
-Fixpoint resolve_ws (pk : list pkt) (ws : list wlit) : option (list write) :=
+Fixpoint resolve_ins (tpls : list pkt) (ins : list (key * plit)) : option (list staged) :=
+  match ins with
+  | [] => Some []
+  | (k, l) :: r =>
+      match resolve_p tpls l, resolve_ins tpls r with
+      | Some p, Some r' => Some ((k, p) :: r')
+      | _, _ => None
+      end
+  end.
+
+Fixpoint resolve_ws (tpls pk : list pkt) (ws : list wlit) : option (list write) :=
   match ws with
   | [] => Some []
   | w :: r =>
-      match resolve_ws pk r with
+      match resolve_ws tpls pk r with
       | None => None
       | Some r' =>
           match w with
           | WI i => match nth_error pk (N.to_nat i) with Some p => Some (WPlain p :: r') | None => None end
-          | WP p => Some (WPlain p :: r')
-          | WG g => Some (WGso g :: r')
+          | WP l => match resolve_p tpls l with Some p => Some (WPlain p :: r') | None => None end
+          | WG proto hl iplen udplen pays =>
+              match resolve_p tpls hl with
+              | Some h => Some (WGso (mkGso proto h iplen udplen pays) :: r')
+              | None => None
+              end
           end
       end
   end.
 
-Fixpoint resolve_ss (pk : list pkt) (ss : list slit) : option (list pkt) :=
+Fixpoint resolve_ss (tpls pk : list pkt) (ss : list slit) : option (list pkt) :=
   match ss with
   | [] => Some []
   | s :: r =>
-      match resolve_ss pk r with
+      match resolve_ss tpls pk r with
       | None => None
       | Some r' =>
           match s with
           | SI i => match nth_error pk (N.to_nat i) with Some p => Some (p :: r') | None => None end
-          | SP p => Some (p :: r')
+          | SP l => match resolve_p tpls l with Some p => Some (p :: r') | None => None end
           end
       end
   end.
@@ -102,12 +140,12 @@ Fixpoint take_first (f : pkt -> bool) (l : list staged) : option (staged * list 
 (* which staged packet each delivered packet is: the earliest transmitted one not yet used that is [approx] to
    it (packets that are [approx] to each other are interchangeable, and taking the earliest is the most
    favourable choice for the order check); None unless every staged packet is used exactly once *)
-Fixpoint attribute (ins : list staged) (outs : list pkt) : option (list staged) :=
+Fixpoint attribute (rel : pkt -> pkt -> bool) (ins : list staged) (outs : list pkt) : option (list staged) :=
   match outs with
   | [] => match ins with [] => Some [] | _ => None end
   | o :: r =>
-      match take_first (fun i => approxb i o) ins with
-      | Some (x, ins') => match attribute ins' r with Some l => Some (x :: l) | None => None end
+      match take_first (fun i => rel i o) ins with
+      | Some (x, ins') => match attribute rel ins' r with Some l => Some (x :: l) | None => None end
       | None => None
       end
   end.
@@ -128,20 +166,24 @@ Definition write_geometry_ok (w : write) : bool :=
 
 Definition spec_ok (ins : list staged) (ws : list write) (delivered : list pkt) : bool :=
   forallb write_geometry_ok ws
-  && match attribute (sort_staged ins) delivered with
+  && match attribute approxb (sort_staged ins) delivered with
      | Some att => order_ok att
      | None => false
      end.
 
 Definition check_case (c : case) : list N :=
   match c with
-  | CBatch tso uso ins ws segs harness_ok =>
-      let pk := map snd ins in
-      match resolve_ws pk ws, resolve_ss pk segs with
-      | Some iw, Some isegs =>
-          flag 1 (list_eqb write_eqb (coalesce tso uso ins) iw)
-          ++ flag 2 (spec_ok ins iw isegs && harness_ok)
-          ++ flag 3 (list_eqb eq_mod_cks (tun_view iw) isegs)
-      | _, _ => [1; 2]
+  | CBatch tso uso tpls lins ws segs harness_ok =>
+      match resolve_ins tpls lins with
+      | None => [1; 2]
+      | Some ins =>
+          let pk := map snd ins in
+          match resolve_ws tpls pk ws, resolve_ss tpls pk segs with
+          | Some iw, Some isegs =>
+              flag 1 (list_eqb write_eqb (coalesce tso uso ins) iw)
+              ++ flag 2 (spec_ok ins iw isegs && harness_ok)
+              ++ flag 3 (list_eqb eq_mod_cks (tun_view iw) isegs)
+          | _, _ => [1; 2]
+          end
       end
   end.
